@@ -251,7 +251,7 @@ def run(run: Run) -> None:
         us.append((5, f"pairgraph#{i}", A.shifted(g, (1, -1, 2, 0, 3)), (), 0.0))
     for n in ((6,) if quick else (6, 7, 8)):
         for tag, gv in A.larger_n_samples(n):
-            if quick and not tag.startswith(("matching-shift", "star-shift", "two-cliques+")):
+            if quick and not tag.startswith(("matching-shift", "star-shift", "star+convex")):
                 continue
             us.append((n, f"n{n}:{tag}", gv, ("pairs",) if n == 6 else (), 0.0))
     # non-superadditive inputs are inside "every incomplete game on which both are defined": all of A3-ANY
